@@ -308,6 +308,64 @@ pub fn build_separable<T: Sc>(
                     });
                 }
             }
+            4 => {
+                let c = ctl.clone();
+                let rs = row_scale.clone();
+                b = b.function(
+                    fnames.clone(),
+                    move |x: &DVector<T>, a: T, bb: T, cc: T, dd: T| {
+                        closure_body(&c, CallKind::Func(j), fam, What::F, x, &[a, bb, cc, dd], &rs)
+                    },
+                );
+                for (l, k) in f.params.iter().enumerate() {
+                    let c = ctl.clone();
+                    let rs = row_scale.clone();
+                    let k = *k;
+                    b = b.partial_deriv(
+                        pname(k),
+                        move |x: &DVector<T>, a: T, bb: T, cc: T, dd: T| {
+                            closure_body(
+                                &c,
+                                CallKind::FuncDeriv(j, k),
+                                fam,
+                                What::D(l),
+                                x,
+                                &[a, bb, cc, dd],
+                                &rs,
+                            )
+                        },
+                    );
+                }
+            }
+            5 => {
+                let c = ctl.clone();
+                let rs = row_scale.clone();
+                b = b.function(
+                    fnames.clone(),
+                    move |x: &DVector<T>, a: T, bb: T, cc: T, dd: T, ee: T| {
+                        closure_body(&c, CallKind::Func(j), fam, What::F, x, &[a, bb, cc, dd, ee], &rs)
+                    },
+                );
+                for (l, k) in f.params.iter().enumerate() {
+                    let c = ctl.clone();
+                    let rs = row_scale.clone();
+                    let k = *k;
+                    b = b.partial_deriv(
+                        pname(k),
+                        move |x: &DVector<T>, a: T, bb: T, cc: T, dd: T, ee: T| {
+                            closure_body(
+                                &c,
+                                CallKind::FuncDeriv(j, k),
+                                fam,
+                                What::D(l),
+                                x,
+                                &[a, bb, cc, dd, ee],
+                                &rs,
+                            )
+                        },
+                    );
+                }
+            }
             _ => return Err("unsupported arity".into()),
         }
     }
